@@ -4,7 +4,7 @@ from __future__ import annotations
 import ast
 import builtins
 
-from ..symex import Sym, T, SList, Engine, show
+from ..symex import Sym, T, SList, Engine, show, early_exits
 from ..loader import AnalysisError, FuncInfo, loc
 from ..report import RuleResult
 
@@ -174,6 +174,10 @@ def rule_rowgen(P) -> RuleResult:
                     break
                 ne = _nest_events(p)
                 ys = [(st, e) for st, e in ne if e[0] == 'yield']
+                if early_exits(p, ENTRIES):
+                    res.fail(construct, 'rowgen:filter', f'{cname}: at {what} the generator stops scanning the entries: the rows of all '
+                             f'later directives are lost', loc(it))
+                    break
                 if kind == 'entries':
                     good = [(st, e) for st, e in ys if st == (ENTRIES,)]
                     if len(ys) != 1 or len(good) != 1:
@@ -241,6 +245,8 @@ def rule_rowgen(P) -> RuleResult:
         for p in Engine(P, on_isinstance=on_isinstance2).paths(it, {'self': SELF}):
             ne = _nest_events(p)
             ys = [(st, e) for st, e in ne if e[0] == 'yield']
+            if early_exits(p, src):
+                okt = False
             want = 1 if inst else 0
             if len(ys) != want or any(st != (src,) or e[1] != T('elem', (src,)) for st, e in ys):
                 okt = False
